@@ -347,7 +347,9 @@ impl Pool {
                         if i >= n {
                             break;
                         }
-                        let mut out = run_one(&mut w, &jobs[i], self.timeout, self.recycle_every);
+                        // once hangs are confirmed for this tree, do not wait the full watchdog again and again
+                        let timeout = if confirmed_hangs.load(std::sync::atomic::Ordering::SeqCst) >= 3 { Duration::from_secs(2).min(self.timeout) } else { self.timeout };
+                        let mut out = run_one(&mut w, &jobs[i], timeout, self.recycle_every);
                         if out == Outcome::Hang && confirmed_hangs.load(std::sync::atomic::Ordering::SeqCst) < 3 {
                             // a hang only counts when it repeats alone with a 60 s limit
                             let mut w2: Option<Worker> = None;
